@@ -228,7 +228,7 @@ def run(ctx):
     setwake, wakeonly = [], []
     for fn in sf_fns:
         ig, live, slot = direct_slot_writes(fn)
-        if not list(L.call_nodes(ig, callee_re=WAKE_RE, live=live)) or not any(a.node.frame.id == 0 for a in slot):
+        if not list(L.call_nodes(ig, callee_re=WAKE_RE, live=live)) or not any(a.node.frame.owner_id == 0 for a in slot):
             continue
         if any(a.op in ("store", "rmw") for a in slot):
             setwake.append((fn, ig, live, slot))
